@@ -19,6 +19,10 @@ func (core *JApiCore) processInclude(keyword *scanner.Lexeme) *jerr.JApiError {
 	// This directive shouldn't be among core.directives, because we simply
 	// "paste" included file content inside current file.
 
+	if je := core.checkDirectiveIsAllowed(directive.Include, keyword.Begin()); je != nil {
+		return je
+	}
+
 	path, je := core.getIncludedFilePath(keyword)
 	if je != nil {
 		return je
